@@ -381,12 +381,29 @@ Section MomentsP.
       rewrite Hx by assumption. reflexivity.
     Qed.
 
+    Lemma integrate_bunch_eq b s s' : (0 <= b < nb)%Z ->
+      bunch_eq b s s' -> bunch_eq b (integrate K g s) (integrate K g s').
+    Proof.
+      intros Hb H. pose proof H as ((Hd & Hx & Hy & Hf) & Hm).
+      split; [split; [exact Hd|split; [exact Hx|split; [exact Hy|]]]|exact Hm].
+      apply integrate_arr; assumption.
+    Qed.
+
+    Lemma normalize_bunch_eq b s s' : (0 <= b < nb)%Z ->
+      bunch_eq b s s' -> bunch_eq b (normalize K pos g s) (normalize K pos g s').
+    Proof.
+      intros Hb H. pose proof H as ((Hd & Hx & Hy & Hf) & Hm).
+      split; [split; [|split; [exact Hx|split; [exact Hy|exact Hf]]]|exact Hm].
+      intros x y Hxr Hyr. rewrite !normalize_data by assumption.
+      rewrite Hd by assumption. rewrite Hf. reflexivity.
+    Qed.
+
     Lemma run_op_bunch_eq b s s' op : (0 <= b < nb)%Z ->
       bunch_eq b s s' -> bunch_eq b (run_op K pos g s op) (run_op K pos g s' op).
     Proof.
       intros Hb H. pose proof H as ((Hd & Hx & Hy & Hf) & Hm). unfold run_op.
       destruct (op =? 0)%Z; [|destruct (op =? 1)%Z; [|destruct (op =? 2)%Z; [|destruct (op =? 3)%Z;
-        [|destruct (op =? 4)%Z; [|destruct (op =? 5)%Z; [|destruct (op =? 6)%Z; [|destruct (op =? 7)%Z]]]]]]].
+        [|destruct (op =? 4)%Z; [|destruct (op =? 5)%Z; [|destruct (op =? 6)%Z; [|destruct (op =? 7)%Z; [|destruct (op =? 8)%Z]]]]]]]].
       - (* updateX *) split; [split; [exact Hd|split; [|split; [exact Hy|exact Hf]]]|exact Hm].
         apply updateX_arr; assumption.
       - (* updateY *) split; [split; [exact Hd|split; [exact Hx|split; [|exact Hf]]]|exact Hm].
@@ -416,6 +433,7 @@ Section MomentsP.
         + unfold average, set_mom. cbn [smom].
           destruct ((a =? 1)%Z && (o =? 0)%Z)%bool; [|apply Hm].
           rewrite !tabA_get by exact Hb. apply avg_val_eq. exact (proj1 H).
+      - (* integrateAndNormalize *) apply normalize_bunch_eq; [exact Hb|]. apply integrate_bunch_eq; assumption.
       - exact H.
     Qed.
 
